@@ -13,8 +13,8 @@ from vf.util import closure_has_zero, fresh, max_blocks, root_class, tally_ops, 
 
 PROPERTY = "C05"
 WORKERS = {"quick": 16, "thorough": 16}
-CASES = {"quick": 350, "thorough": 2100}
-TIME = {"quick": 55, "thorough": 240}
+CASES = {"quick": 220, "thorough": 2100}
+TIME = {"quick": 40, "thorough": 240}
 CASE_TIMEOUT = 120
 TECHNIQUE = (
     "runtime monitoring: differential oracle across the seven public entry points (x.compute, dask.compute with other collections, "
@@ -63,12 +63,13 @@ def assemble_delayed(d, chunks):
     if not isinstance(d, np.ndarray) or d.ndim == 0:
         return vals[0]
     it = iter(vals)
+    conc = np.ma.concatenate if any(isinstance(v, np.ma.MaskedArray) for v in vals) else np.concatenate
 
     def rec(shape, axis):
         if not shape:
             return next(it)
         parts = [rec(shape[1:], axis + 1) for _ in range(shape[0])]
-        return np.concatenate(parts, axis=axis)
+        return conc(parts, axis=axis)
 
     return rec(tuple(d.shape), 0)
 
@@ -244,6 +245,15 @@ def check_program(g, v, ctx, rng, case=None, other_var=None):
     if vsame(v, base):
         ctx.count("compute_differs_from_numpy_left_to_C01")
         return problems, None
+    if other_var is not None:
+        # the passenger collection must itself be computable, or a failure of dask.compute(x, other) says nothing about x
+        try:
+            if vsame(other_var, fresh(other).compute()):
+                other = None
+        except Exception:
+            other = None
+        if other is None:
+            ctx.count("passenger_not_computable_dropped")
     follows = {}
     # (1) each entry point on a fresh collection
     for entry in ENTRIES:
